@@ -16,7 +16,8 @@ assume func utf8.DecodeLastRune(p []byte) (r rune, size int)
 
 func InternalEscapeBytes(b []byte, startLoc int, breakNewLines, strip bool) (res []byte)
   requires 0 <= startLoc && startLoc <= len(b)
-  requires !strip ==> WFP(b, startLoc) && LS(b, startLoc) && clean(b, startLoc)
+  requires !strip ==> WFP(b, startLoc) && LS(b, startLoc)
+  requires !strip && startLoc < len(b) ==> clean(b, startLoc)
   requires !strip && breakNewLines && startLoc < len(b) ==> dep(b, startLoc) == 1
   requires !strip && !breakNewLines ==> dep(b, startLoc) == 0
 
